@@ -73,6 +73,24 @@ CHECKS['C18'] = dict(
          'Cyclic documents must be rejected with RecognitionError/YAMLError.',
     design='4 C18')
 
+CHECKS['C15'] = dict(
+    technique='Hypothesis-generated mapping nodes x transform choices against '
+              'reference transforms written from the docstrings (reference-'
+              'model oracle) plus reference-free inverse laws',
+    text='Generated mapping nodes whose target attribute is a sequence of '
+         'mappings (unique or duplicated string keys, value attribute present '
+         'or absent, holding scalars/sequences/mappings), a mapping of '
+         'mappings and/or scalars, a proper index, missing, or of the wrong '
+         'kind; each of seq_attribute_to_map, map_attribute_to_seq, '
+         'index_attribute_to_map, map_attribute_to_index (with and without '
+         'value attribute, strict or not) must give exactly the documented '
+         'shape, leave inapplicable nodes unchanged without raising, raise '
+         'SeasoningError for duplicates only in strict mode; the two inverse '
+         'compositions must restore the data up to the key attribute\'s '
+         'position; the dash/underscore renamings must be inverse on clean '
+         'keys.',
+    design='4 C15')
+
 NOT_YET = 'check not built yet in this session (work in progress)'
 
 
